@@ -82,8 +82,10 @@ def run(tier):
                 if not np.allclose(rot[name], want, rtol=1e-6, atol=1e-9 * float(np.max(np.abs(want)))):
                     chk.violation("field:%s" % name, "spectral %s field is not rotated / mirrored with the spectrum and the wind" % name,
                                   dict(ctx, max_abs_diff=float(np.max(np.abs(rot[name] - want))), scale=float(np.max(np.abs(want)))))
-            for name in ("gbulk", "dbulk", "z0", "stress", "u10"):
-                if not np.allclose(rot[name], base[name], rtol=2e-6, atol=0, equal_nan=True):
+            # tolerances: the roughness iteration stops at 1e-6 in log z0, the wind inversion at a step of 0.01 m/s; an
+            # iteration count that differs by one between the two runs may move the result by that much
+            for name, rtol, atol in (("gbulk", 1e-5, 0.0), ("dbulk", 1e-9, 0.0), ("z0", 1e-5, 0.0), ("stress", 1e-5, 0.0), ("u10", 1e-6, 5e-3)):
+                if not np.allclose(rot[name], base[name], rtol=rtol, atol=atol, equal_nan=True):
                     chk.violation("invariant:%s" % name, "%s changes under joint rotation / mirroring" % name,
                                   dict(ctx, before=base[name].tolist(), after=rot[name].tolist()))
             for name in ("stress_dir", "diss_dir", "u10_dir"):
